@@ -620,6 +620,57 @@ m("C12", "stor-not-nullable", SCH,
   "	SelectorPtr                    Any            (rename \"Stor\")",
   "C12.1", "selector no longer nullable: cancel/update requests from old peers fail to decode")
 
+# ---------------- C14
+CM = "channelmonitor/channelmonitor.go"
+m("C14", "second-close-allowed", CM,
+  "	firstShutdown := mc.Shutdown()\n	if !firstShutdown {\n		// Channel was already shutdown, ignore this second attempt to shutdown\n		return\n	}\n",
+  "	mc.Shutdown()\n",
+  "C14.2", "channel closed with an error twice", "calibration")
+m("C14", "queued-restart-lost", CM,
+  "				mc.restartedAt = time.Now()\n				restartAgain = true\n				mc.restartQueued = false",
+  "				mc.restartedAt = time.Now()\n				mc.restartQueued = false",
+  "C14.3", "a restart queued during a restart is lost", "calibration")
+m("C14", "queue-flag-never-cleared", CM,
+  "				mc.restartedAt = time.Now()\n				restartAgain = true\n				mc.restartQueued = false",
+  "				mc.restartedAt = time.Now()\n				restartAgain = true",
+  "C14.3", "one queued restart makes the monitor restart forever")
+m("C14", "marker-not-cleared", CM,
+  "				// No other restarts queued up, so clear the restart time\n				mc.restartedAt = time.Time{}\n",
+  "				// No other restarts queued up, so clear the restart time\n",
+  "C14.3", "after the first restart no later restart is ever performed")
+m("C14", "limit-off-by-one-unbounded", CM,
+  "	if uint32(restartCount) > mc.cfg.MaxConsecutiveRestarts {",
+  "	if uint32(restartCount) > mc.cfg.MaxConsecutiveRestarts && mc.cfg.RestartBackoff == 0 {",
+  "C14.4", "attempt bound not enforced when a backoff is configured")
+m("C14", "counter-read-outside-lock", CM,
+  "	mc.restartLk.Lock()\n	mc.consecutiveRestarts++\n	restartCount := mc.consecutiveRestarts\n	mc.restartLk.Unlock()\n",
+  "	mc.restartLk.Lock()\n	mc.consecutiveRestarts++\n	mc.restartLk.Unlock()\n	restartCount := mc.consecutiveRestarts\n",
+  "C14.1", "attempt counter read outside its lock")
+m("C14", "shutdown-without-marker", CM,
+  "	mc.cancel() // cancel context so all go-routines exit\n	mc.cancel = nil\n",
+  "	mc.cancel() // cancel context so all go-routines exit\n",
+  "C14.2", "every shutdown reports 'first': the channel can be closed twice")
+m("C14", "timer-when-disabled", CM,
+  "	// Check if the complete timeout is disabled\n	if mc.cfg.CompleteTimeout == 0 {\n		return\n	}\n",
+  "",
+  "C14.5", "disabled complete-timeout closes the channel immediately")
+m("C14", "acts-after-cleanup", CM,
+  "		if channels.IsChannelCleaningUp(state) || channels.IsChannelTerminated(state) {",
+  "		if channels.IsChannelTerminated(state) {",
+  "C14.5", "monitor keeps restarting a channel that is cleaning up")
+m("C14", "monitor-when-disabled", CM,
+  "	if !m.enabled() {\n		return nil\n	}\n\n	m.lk.Lock()",
+  "	m.lk.Lock()",
+  "C14.6", "channels monitored although monitoring is disabled")
+m("C14", "data-does-not-reset", CM,
+  "		case datatransfer.DataSent, datatransfer.DataReceived:",
+  "		case datatransfer.DataQueued:",
+  "C14.5", "data progress does not reset the consecutive-restart count")
+m("C14", "timeout-closes-directly", CM,
+  "			err := fmt.Errorf(\"%s: timed out waiting %s for Accept message from remote peer\",\n				mc.chid, mc.cfg.AcceptTimeout)\n			mc.closeChannelAndShutdown(err)",
+  "			err := fmt.Errorf(\"%s: timed out waiting %s for Accept message from remote peer\",\n				mc.chid, mc.cfg.AcceptTimeout)\n			_ = mc.mgr.CloseDataTransferChannelWithError(mc.parentCtx, mc.chid, err)",
+  "C14.2", "accept timeout closes the channel even after the monitor shut down")
+
 by = collections.defaultdict(list)
 for x in M:
     p = x.pop("prop")
